@@ -540,3 +540,116 @@ for _t in list(INTBITS) + ['bool']:
 # integer-sqrt crate / uint crate
 MODELS['<u128 as integer_sqrt::IntegerSquareRoot>::integer_sqrt'] = lambda it, a, c: it.ctx.isqrt(deref(a[0]))
 MODELS['<u64 as integer_sqrt::IntegerSquareRoot>::integer_sqrt'] = lambda it, a, c: it.ctx.isqrt(deref(a[0]))
+
+
+# ---- uint-crate U256 (construct_uint! in white_whale_std::pool_network::uints) -------------------------------------
+def _u256_models():
+    def UU(t): return Agg('white_whale_std::pool_network::uints::U256', [t])
+    def x(v):
+        v = deref(v)
+        if isinstance(v, Agg): return v.fields[0]
+        if isinstance(v, bool): return int(v)
+        return v
+    B = 256
+    for P in ('white_whale_std::pool_network::uints::U256', 'white_whale_std::pool_network::U256'):
+        Q = P + '::'
+        MODELS[Q + 'zero'] = lambda it, a, c: UU(0)
+        MODELS[Q + 'one'] = lambda it, a, c: UU(1)
+        MODELS[Q + 'max_value'] = lambda it, a, c: UU(2 ** B - 1)
+        MODELS[Q + 'is_zero'] = lambda it, a, c: x(a[0]) == 0
+        def chk(op):
+            def f(it, a, c):
+                r = op(x(a[0]), x(a[1]))
+                if it.ctx.branch(in_range(r, B), 'checked'): return SOME(UU(r))
+                return NONE()
+            return f
+        MODELS[Q + 'checked_add'] = chk(lambda p, q: p + q)
+        MODELS[Q + 'checked_sub'] = chk(lambda p, q: p - q)
+        MODELS[Q + 'checked_mul'] = chk(lambda p, q: p * q)
+        def cdiv(it, a, c):
+            if it.ctx.branch(x(a[1]) == 0, 'div0'): return NONE()
+            return SOME(UU(it.ctx.div(x(a[0]), x(a[1]))))
+        MODELS[Q + 'checked_div'] = cdiv
+        def crem(it, a, c):
+            if it.ctx.branch(x(a[1]) == 0, 'div0'): return NONE()
+            return SOME(UU(it.ctx.rem(x(a[0]), x(a[1]))))
+        MODELS[Q + 'checked_rem'] = crem
+        def cpow(it, a, c):
+            e = x(a[1])
+            if is_sym(e): raise Unsupported('symbolic exponent')
+            r = x(a[0]) ** e
+            if it.ctx.branch(in_range(r, B), 'checked'): return SOME(UU(r))
+            return NONE()
+        MODELS[Q + 'checked_pow'] = cpow
+        MODELS[Q + 'saturating_sub'] = lambda it, a, c: UU(zmax(x(a[0]) - x(a[1]), 0))
+        MODELS[Q + 'integer_sqrt'] = lambda it, a, c: UU(it.ctx.isqrt(x(a[0])))
+        def as_n(bits):
+            def f(it, a, c):
+                v = x(a[0])
+                guard(it, in_range(v, bits), 'Integer overflow when casting to u%d' % bits); return v
+            return f
+        MODELS[Q + 'as_u128'] = as_n(128); MODELS[Q + 'as_u64'] = as_n(64); MODELS[Q + 'as_u32'] = as_n(32)
+        MODELS[Q + 'low_u128'] = lambda it, a, c: it.ctx.rem(x(a[0]), 2 ** 128)
+        MODELS[Q + 'low_u64'] = lambda it, a, c: it.ctx.rem(x(a[0]), 2 ** 64)
+        MODELS[Q + 'abs_diff'] = lambda it, a, c: UU(zite(x(a[0]) >= x(a[1]), x(a[0]) - x(a[1]), x(a[1]) - x(a[0])))
+        T = P
+        def opn(op, msg):
+            def f(it, a, c):
+                if op == 'div':
+                    guard(it, x(a[1]) != 0, 'division by zero'); return UU(it.ctx.div(x(a[0]), x(a[1])))
+                if op == 'rem':
+                    guard(it, x(a[1]) != 0, 'division by zero'); return UU(it.ctx.rem(x(a[0]), x(a[1])))
+                r = {'add': x(a[0]) + x(a[1]), 'sub': x(a[0]) - x(a[1]), 'mul': x(a[0]) * x(a[1])}[op]
+                guard(it, in_range(r, B), 'arithmetic operation overflow'); return UU(r)
+            return f
+        for tr, op in (('Add', 'add'), ('Sub', 'sub'), ('Mul', 'mul'), ('Div', 'div'), ('Rem', 'rem')):
+            MODELS['<%s as std::ops::%s>::%s' % (T, tr, op)] = opn(op, '')
+            def asg(op=op):
+                def f(it, a, c): a[0].set(opn(op, '')(it, [deref(a[0]), a[1]], c)); return UNIT()
+                return f
+            MODELS['<%s as std::ops::%sAssign>::%s_assign' % (T, tr, op)] = asg()
+        for o in ('lt', 'le', 'gt', 'ge'):
+            MODELS['<%s as std::cmp::PartialOrd>::%s' % (T, o)] = _cmp(o)
+            MODELS['std::cmp::impls::<impl std::cmp::PartialOrd for &%s>::%s' % (T, o)] = _cmp(o)
+        for o in ('eq', 'ne'):
+            MODELS['<%s as std::cmp::PartialEq>::%s' % (T, o)] = _cmp(o)
+        MODELS['<%s as std::cmp::Ord>::cmp' % T] = lambda it, a, c: _ordering(it, x(a[0]), x(a[1]))
+        MODELS['<%s as std::cmp::PartialOrd>::partial_cmp' % T] = lambda it, a, c: SOME(_ordering(it, x(a[0]), x(a[1])))
+        MODELS['<%s as std::cmp::Ord>::min' % T] = lambda it, a, c: UU(zmin(x(a[0]), x(a[1])))
+        MODELS['<%s as std::cmp::Ord>::max' % T] = lambda it, a, c: UU(zmax(x(a[0]), x(a[1])))
+        MODELS['<%s as std::convert::From>::from' % T] = lambda it, a, c: UU(x(a[0]))
+        MODELS['<%s as std::default::Default>::default' % T] = lambda it, a, c: UU(0)
+        def into(it, a, c):
+            m = re.match(r'^<(.+) as std::convert::Into<(.+)>>::into$', c.inst)
+            dst = m.group(2).strip() if m else ''
+            dn = dst.split('::')[-1]
+            if dn in UBITS:
+                guard(it, in_range(x(a[0]), UBITS[dn]), 'conversion overflow'); return mkU(dn, x(a[0]))
+            if dn == 'U256': return UU(x(a[0]))
+            raise Unsupported('U256 into ' + dst)
+        MODELS['<%s as std::convert::Into>::into' % T] = into
+        MODELS['<%s as num_traits::ToPrimitive>::to_u128' % T] = lambda it, a, c: SOME(x(a[0])) if it.ctx.branch(in_range(x(a[0]), 128), 'to_u128') else NONE()
+        MODELS['<%s as num_traits::ToPrimitive>::to_u64' % T] = lambda it, a, c: SOME(x(a[0])) if it.ctx.branch(in_range(x(a[0]), 64), 'to_u64') else NONE()
+    CONVERSIONS[('u128', 'white_whale_std::pool_network::U256')] = lambda it, v: UU(v)
+    CONVERSIONS[('u128', 'white_whale_std::pool_network::uints::U256')] = lambda it, v: UU(v)
+    CONVERSIONS[('u64', 'white_whale_std::pool_network::U256')] = lambda it, v: UU(v)
+    CONVERSIONS[('u64', 'white_whale_std::pool_network::uints::U256')] = lambda it, v: UU(v)
+_u256_models()
+
+
+def _std_minmax(which):
+    def f(it, a, c):
+        p, q = deref(a[0]), deref(a[1])
+        if isinstance(p, Agg) and len(p.fields) == 1:
+            xp, xq = p.fields[0], q.fields[0]
+            if isinstance(xp, Agg): xp, xq = xp.fields[0], xq.fields[0]
+            pick_first = (xp <= xq) if which == 'min' else (xp > xq)     # std::cmp::min returns the first on ties, max the second
+            if isinstance(pick_first, bool): return a[0] if pick_first else a[1]
+            r = zite(pick_first, xp, xq)
+            inner = p.fields[0]
+            return Agg(p.name, [r]) if not isinstance(inner, Agg) else Agg(p.name, [Agg(inner.name, [r])])
+        if isinstance(p, (int,)) or is_sym(p): return zmin(p, q) if which == 'min' else zmax(p, q)
+        raise Unsupported('std::cmp::%s of %r' % (which, p))
+    return f
+MODELS['std::cmp::min'] = _std_minmax('min')
+MODELS['std::cmp::max'] = _std_minmax('max')
